@@ -126,7 +126,7 @@ func TestVerifC15(t *testing.T) {
 		layouts = append(layouts, layout{filepath.Join(vBundledRoot, n), n})
 	}
 	if g := vGenRoot(); g != "" {
-		for _, n := range []string{"g_3x1500ms", "g_irregular_time", "g_single_snr5", "g_audio_one_seg"} {
+		for _, n := range []string{"g_3x1500ms", "g_irregular_time", "g_single_snr5", "g_audio_one_seg", "g_trex_vs_tfhd"} {
 			layouts = append(layouts, layout{filepath.Join(g, n), n})
 		}
 	}
